@@ -17,6 +17,13 @@ CLAIMS = {
     "C01": ("for each of the 149 leaf kinds (datum kind x pre-processor x callable) the filter result, selected values/keys and "
             "failure indices equal the reference meaning for every value and type of the symbolic leaves and arguments; any "
             "escaping exception is a violation", "3 C01"),
+    "C02": ("every and/or/xor tree shape up to the stated depth with null operands in every position filters as the pointwise Boolean "
+            "combination (null = identity) for every truth assignment the symbolic thresholds/leaves can realise; one inductive step "
+            "(operands' identity graph and results unchanged by construction, on every path) covers operand reuse in any sequence",
+            "3 C02"),
+    "C03": ("for each path skeleton (primitive/map/list/map-or-list parts with condition trees) over heterogeneous 3-level documents, "
+            "the selected nodes (by identity) and concrete paths equal the part-by-part reference walk for every value of the symbolic "
+            "leaves, primitive parts and thresholds; entry points agree", "3 C03"),
     "C14": ("equality laws (reflexive/symmetric/transitive, rebuilt and commuted copies equal) and 'equal implies same "
             "behaviour' decided for every value of the differing atom (key, index, argument, label) and of the probe "
             "document's leaves, per term kind", "3 C14"),
